@@ -7,6 +7,7 @@
  *                     #includes rtrlib/bgpsec/bgpsec_utils.c (the way the repo's unit tests do)
  *   validate          rtr_bgpsec_validate_as_path against a real spki_table filled from the line
  *   gensig            rtr_bgpsec_generate_signature
+ *   validate-nonlri / gensig-nonlri   the same with data->nlri == NULL
  * Independent of rtrlib (plain OpenSSL, never touching rtrlib's layout code):
  *   keygen            fresh P-256 key: private key DER (121 B), SubjectPublicKeyInfo DER (91 B), SKI
  *   sign              ECDSA over SHA-256 of the message bytes GIVEN ON THE LINE (computed by the Lean spec)
@@ -392,10 +393,15 @@ int main(void)
 				free_stream(s);
 				rtr_bgpsec_free(d);
 			}
-		} else if (strcmp(tok[0], "validate") == 0) {
+		} else if (strcmp(tok[0], "validate") == 0 || strcmp(tok[0], "validate-nonlri") == 0) {
 			int pos = 1;
 			struct rtr_bgpsec *d = parse_data(&pos);
 			struct spki_table t;
+
+			if (d && tok[0][8] == '-') { /* data->nlri == NULL */
+				rtr_bgpsec_nlri_free(d->nlri);
+				d->nlri = NULL;
+			}
 
 			if (!d) {
 				puts("bad-op");
@@ -410,9 +416,14 @@ int main(void)
 				spki_table_free(&t);
 				rtr_bgpsec_free(d);
 			}
-		} else if (strcmp(tok[0], "gensig") == 0) {
+		} else if (strcmp(tok[0], "gensig") == 0 || strcmp(tok[0], "gensig-nonlri") == 0) {
 			int pos = 1;
 			struct rtr_bgpsec *d = parse_data(&pos);
+
+			if (d && tok[0][6] == '-') { /* data->nlri == NULL */
+				rtr_bgpsec_nlri_free(d->nlri);
+				d->nlri = NULL;
+			}
 			size_t kl = 0;
 			uint8_t *key = (d && pos < ntok) ? unhex(tok[pos], &kl) : NULL;
 
